@@ -143,6 +143,17 @@ def check(spec):
         if not _eq(got, exp_cls):
             raise Violation(f"helper-differs:{name}", f"{_short(got)} vs {_short(exp_cls)}")
         evals += 1
+    # dispose reaches every root and every layer that owns a resource, also through concats with several parts
+    objs = S.all_objects(ref)
+    roots = [o for o in objs if isinstance(o, S.TokenRoot)]
+    owners = [o for o in objs if type(o) is S.PassWrapper]
+    before_r = [r.disposed for r in roots]
+    before_o = [o.__dict__.get("disposed_here", 0) for o in owners]
+    ds.dispose()
+    if [r.disposed for r in roots] != [b + 1 for b in before_r]:
+        raise Violation("dispose-does-not-reach-every-root", f"{[r.disposed - b for r, b in zip(roots, before_r)]} disposals for {len(roots)} roots")
+    if [o.__dict__.get("disposed_here", 0) for o in owners] != [b + 1 for b in before_o]:
+        raise Violation("dispose-skips-a-layer", f"{[o.__dict__.get('disposed_here', 0) - b for o, b in zip(owners, before_o)]} for {len(owners)} resource-owning layers")
     # introspection on linear chains
     if S.is_linear(ref):
         layers, root = S.linear_layers(ref)
@@ -177,6 +188,13 @@ def check(spec):
         if not top_is_concat and layers:
             if ds.getdim_class() != root.C:
                 raise Violation("introspection:getdim", str(ds.getdim_class()))
+            for nm, exp_dim in (("target", 7 + root.root_id), ("embedding", 3)):
+                try:
+                    got_dim = getattr(ds, f"getdim_{nm}")()
+                except Exception as e:
+                    raise Violation(f"introspection:getdim-alias-raises:{type(e).__name__}", f"getdim_{nm}(): {e!r}"[:200])
+                if got_dim != exp_dim:
+                    raise Violation("introspection:getdim-alias", f"getdim_{nm}() = {got_dim}, getshape_{nm}() = {(exp_dim,)}")
         if ds.custom_attribute != ("attr", root.root_id):
             raise Violation("introspection:attribute-delegation", str(ds.custom_attribute))
         before = root.disposed
